@@ -278,10 +278,11 @@ func init() {
 		snapshot := func(ex *Exec, st *State, b Value, n *Term) Value {
 			// an exact copy of the buffer's backing array at this moment, seen through (off, n)
 			ref := st.newRef()
-			for _, l := range leavesOf(bt) {
-				st.setRegionArr(bt, l, ref, st.regionArr(bt, l, b.L[".ref"]))
+			gl := leavesOf(ghostByteT)
+			for i, l := range leavesOf(bt) {
+				st.setRegionArr(ghostByteT, gl[i], ref, st.regionArr(bt, l, b.L[".ref"]))
 			}
-			return Value{T: types.NewSlice(bt), L: map[string]*Term{".ref": ref, ".off": b.L[".off"], ".len": n, ".cap": n}}
+			return Value{T: types.NewSlice(ghostByteT), L: map[string]*Term{".ref": ref, ".off": b.L[".off"], ".len": n, ".cap": n}}
 		}
 		rd := reg("(*net.UDPConn).ReadMsgUDPAddrPort", "receives an arbitrary datagram: 0 <= n <= len(b), 0 <= oobn <= len(oob), contents of b and oob arbitrary, flags, source and error arbitrary; ghost lastpkt() = b[:n] as received", func(ex *Exec, st *State, c *ast.CallExpr, r *Value, a []Value) []Value {
 			sig := ex.info().TypeOf(c.Fun).(*types.Signature)
@@ -315,6 +316,29 @@ func init() {
 			e := freshValue("senderr", ex.vc.errT)
 			st.assumeValid(e)
 			return []Value{n, e}
+		})
+		reg("(*net.ListenConfig).ListenPacket", "returns a fresh non-nil *net.UDPConn (network \"udp\") or an error", func(ex *Exec, st *State, c *ast.CallExpr, r *Value, a []Value) []Value {
+			sig := ex.info().TypeOf(c.Fun).(*types.Signature)
+			// the dynamic type of the result is *net.UDPConn: the project only listens on "udp"
+			var connT types.Type
+			for _, p := range ex.vc.pkgs {
+				if ip, ok := p.Imports["net"]; ok {
+					if o := ip.Types.Scope().Lookup("UDPConn"); o != nil {
+						connT = types.NewPointer(o.Type())
+					}
+				}
+			}
+			if connT == nil {
+				unsupp("net.UDPConn not found")
+			}
+			e := freshValue("listenerr", ex.vc.errT)
+			st.assumeValid(e)
+			ref := st.newRef()
+			cv := scalarV(connT, ref)
+			boxed := ex.toInterface(cv, sig.Results().At(0).Type(), st)
+			isErr := mkNot(mkEq(e.scalar(), mkInt(sortRef, 0)))
+			res := scalarV(sig.Results().At(0).Type(), mkIte(isErr, mkInt(sortRef, 0), boxed.scalar()))
+			return []Value{res, e}
 		})
 		for _, nm := range []string{"(*net.UDPConn).Close", "(*net.UDPConn).SetDeadline", "(*net.UDPConn).SetReadDeadline"} {
 			reg(nm, "no effect on tracked state; error arbitrary", func(ex *Exec, st *State, c *ast.CallExpr, r *Value, a []Value) []Value {
